@@ -97,7 +97,8 @@ func (o *Out) Case(model string, in []Group, obs []Group) {
 
 // Oracle records a specification-level failure of the implementation on case number n.
 func (o *Out) Oracle(n int, format string, a ...interface{}) {
-	fmt.Fprintf(o.oracle, "%d\t%s\n", n, fmt.Sprintf(format, a...))
+	msg := strings.ReplaceAll(fmt.Sprintf(format, a...), "\n", "\\n")
+	fmt.Fprintf(o.oracle, "%d\t%s\n", n, msg)
 }
 
 func (o *Out) Close() {
